@@ -477,11 +477,11 @@ def hunts(quick, focus, timeout):
     # threshold that switches to another code path only shows beyond the small sizes of the sampled matrix
     for o in opts:
         if quick:
-            shapes = [(4, 2, 300), (130, 2, 3)] if o != 'GP' else [(10, 2, 70)]
+            shapes = [(4, 2, 300), (130, 2, 3)] if o != 'GP' else [(10, 2, 70), (3, 2, 1100)]
             if o in ('HC', 'PSO'):
                 shapes.append((3, 1, 1100))          # more than 1000 / 1024 records in one history
         else:
-            shapes = [(4, 2, 1100), (300, 3, 4), (12, 40, 30), (40, 9, 260), (70, 2, 70)] if o != 'GP' else [(10, 2, 300), (130, 3, 5), (12, 12, 40)]
+            shapes = [(4, 2, 1100), (300, 3, 4), (12, 40, 30), (40, 9, 260), (70, 2, 70)] if o != 'GP' else [(10, 2, 300), (130, 3, 5), (12, 12, 40), (3, 2, 1100), (2, 1, 2100)]
         for i, (na, nv, ni) in enumerate(shapes):
             s_ = WR[o]['spaces'][i % len(WR[o]['spaces'])]
             c = {'objective': ['sphere', 'shifted', 'linear'][i % 3], 'ret': ['pyfloat', 'npscalar'][i % 2], 'box': ['sym10', 'asym'][i % 2] if nv <= 5 else 'sym10',
@@ -503,6 +503,24 @@ def hunts(quick, focus, timeout):
             cfg = make(o, 'search', c, 9950 + i, timeout)
             cfg['repro'] = False
             out.append(cfg)
+    # build / re-assign / run: hyperparameters re-assigned through their public setters after construction -- to other values of the
+    # working range, and (SCA, BA: no adaptive hyperparameter reads them) a lower end re-assigned above the upper end, which the
+    # setters accept and the update samples from as it stands.  Judged for C15: the task leaves every one of them alone
+    POST = {'SCA': [[['r_min', 2.5]], [['a', 1.0], ['r_max', 2.5], ['r_min', 0.5]], [['r_min', 7]]],
+            'BA': [[['f_min', 3.0]], [['A', 0.9], ['r', 0.1]], [['f_min', 5]]],
+            'PSO': [[['w', 0.4], ['c1', 2.0]]], 'HS': [[['HMCR', 0.9], ['bw', 2.0]]], 'GSA': [[['G', 1.5]]], 'CS': [[['p', 0.5]]],
+            'FPA': [[['p', 0.5], ['eta', 0.7]]], 'HC': [[['r_var', 0.3]]], 'FA': [[['gamma', 0.7]]], 'ABC': [[['n_trials', 3]]]}
+    for o in opts:
+        for i, post in enumerate(POST.get(o, [])):
+            for sp_ in WR[o]['spaces'][:1 if quick else 2]:
+                c = {'objective': ['sphere', 'shifted', 'linear'][i % 3], 'ret': 'pyfloat', 'box': ['sym10', 'asym'][i % 2], 'agents': [5, 8, 3][i % 3],
+                     'n_variables': [2, 1, 3][i % 3], 'n_dimensions': [1, 2][i % 2], 'n_iterations': [4, 1, 9][i % 3], 'draws': 'seeded',
+                     'hp': 'default', 'store_best_only': False, 'hook': 'observe'}
+                cfg = make(o, sp_, c, 9960 + i, timeout)
+                cfg['hp_post'] = post
+                cfg['only_props'] = ['C15']
+                cfg['repro'] = False
+                out.append(cfg)
     if 'RPSO' in opts:
         for i in range(6 if quick else 40):
             c = {'objective': rnd.choice(OBJECTIVES), 'ret': ['pyfloat', 'npscalar'][i % 2], 'box': 'wide', 'agents': [2, 5][i % 2],
